@@ -209,3 +209,7 @@ func vRuneReader(name string, n int) io.Reader {
 }
 
 func vTextReader(s string) io.Reader { return strings.NewReader(s) }
+
+// vSharedWrites: natively unknown (the engine counts stores to package-level
+// variables); 0 keeps replays consistent with a clean run.
+func vSharedWrites() int { return 0 }
